@@ -3,6 +3,7 @@ import MoreExec.Gen.K3
 import MoreExec.Model.BoolOp
 import MoreExec.Model.Zipper
 import MoreExec.Model.MapFut
+import MoreExec.Model.Apply
 open MoreExec.Gen
 
 namespace Driver
@@ -101,6 +102,27 @@ def run (flat fn ef d : String) : String :=
   s!"{showOut r.out} fn={r.fnCalls} err={r.errCalls}"
 end K7
 
+namespace K16
+open MoreExec.Apply
+
+def parseO (s : String) : Outcome Nat :=
+  if s = "cancelled" then .cancelled
+  else if s.startsWith "ok" then .ok (nat! (s.drop 2).toString) else .err (nat! (s.drop 3).toString)
+
+def parseList (s : String) : List String := (s.splitOn ",").filter (fun x => x ≠ "" && x ≠ "-")
+
+def run (fnO pos kw : String) : String :=
+  let fnFut : Outcome Unit := match parseO fnO with | .ok _ => .ok () | .err e => .err e | .cancelled => .cancelled
+  let ps := (parseList pos).map parseO
+  let ks := (parseList kw).map (fun s => match s.splitOn "=" with | [k, o] => (nat! k, parseO o) | _ => (0, Outcome.cancelled))
+  match fApply fnFut ps ks with
+  | .ok (p, k) =>
+      let ksorted := (k.toArray.qsort (fun a b => a.1 < b.1)).toList
+      s!"ok pos={p} kw={ksorted}"
+  | .err e => s!"err{e}"
+  | .cancelled => "cancelled"
+end K16
+
 def oracleLine (ws : List String) : String :=
   match ws with
   | "k5.fold" :: "or" :: outId :: ids :: rest => boolFold .or outId ids rest
@@ -108,6 +130,7 @@ def oracleLine (ws : List String) : String :=
   | "k5.update" :: "or" :: outId :: ids :: d :: rest => boolUpdate .or outId ids d rest
   | "k5.update" :: "and" :: outId :: ids :: d :: rest => boolUpdate .and outId ids d rest
   | ["k7.resolve", flat, fn, ef, d] => K7.run flat fn ef d
+  | ["k16.apply", fnO, pos, kw] => K16.run fnO pos kw
   | "k6.run" :: n :: rest => zipRun n rest
   | "k6.step" :: n :: rem :: d :: idx :: rest => zipStep n rem d idx rest
   | "k3.partition" :: now :: rest =>
